@@ -92,6 +92,65 @@ for d in sorted(glob.glob(os.path.join(ROOT, "seeded", "*"))):
     print("| %s | %s | %s | %s |" % (sid, cell(m.get("summary")), cell(m.get("needs_to_manifest")), "; ".join(res) or "not run yet"))
 
 
+
+# ---- summary per wave and the false-alarm set -------------------------------------------------
+def own(det, pid):
+    v = det.get(pid) if isinstance(det, dict) else None
+    return v if isinstance(v, dict) else {}
+
+print("\n#### Detection per wave (the property's own check / any check; `initial` = first run after the wave was written, before strengthening)\n")
+print("| wave | regressions | initial: own check detects (with concrete input) | now: own check detects (with concrete input) | now: some check detects | now: missed by every check run |")
+print("|---|---|---|---|---|---|")
+waves = [("1-2 (m1, m2)", ("m1", "m2")), ("3 (m3, m4)", ("m3", "m4")), ("4 (m5, m6)", ("m5", "m6")), ("5 (m7, m8)", ("m7", "m8"))]
+for name, sufs in waves:
+    n = io = ioc = no = noc = na = 0
+    missed = []
+    for d in sorted(glob.glob(os.path.join(ROOT, "seeded", "*"))):
+        sid = os.path.basename(d)
+        if sid.split("-")[-1] not in sufs:
+            continue
+        pid = sid.split("-")[0]
+        n += 1
+        di = j(os.path.join(d, "detection_initial.json"))
+        dn = j(os.path.join(d, "detection.json")) or {}
+        if di is not None:
+            v = own(di, pid)
+            io += 1 if v.get("detected") else 0
+            ioc += 1 if v.get("detected") and v.get("concrete_input") else 0
+        v = own(dn, pid)
+        no += 1 if v.get("detected") else 0
+        noc += 1 if v.get("detected") and v.get("concrete_input") else 0
+        if any(isinstance(x, dict) and x.get("detected") for x in dn.values()):
+            na += 1
+        else:
+            missed.append(sid)
+    ini = "%d (%d)" % (io, ioc) if any(os.path.exists(os.path.join(ROOT, "seeded", "%s-%s" % (p["id"], sufs[0]), "detection_initial.json")) for p in props) else "not recorded"
+    print("| %s | %d | %s | %d (%d) | %d | %s |" % (name, n, ini, no, noc, na, ", ".join(missed) or "—"))
+
+print("\n#### False-alarm set: behaviour-preserving refactorings by independent authors (`harmless/`)\n")
+print("Each patch passes the pinned suite with and without the `verif` tag. `ok` = the check exits 0 (a `NOTE: regeneration unavailable` line may be printed); `ALARM` = it reported a violation.\n")
+print("| id | aimed at | what was rewritten | full check result |")
+print("|---|---|---|---|")
+tot = alarms = 0
+for d in sorted(glob.glob(os.path.join(ROOT, "harmless", "*"))):
+    m = j(os.path.join(d, "meta.json")) or {}
+    det = j(os.path.join(d, "detection.json")) or {}
+    res = []
+    bad = False
+    for pid, v in det.items():
+        if not isinstance(v, dict):
+            continue
+        if v.get("detected"):
+            bad = True
+            res.append("%s: ALARM (%s)" % (pid, "concrete input" if v.get("concrete_input") else "no-failing-input-found"))
+        else:
+            res.append("%s: ok" % pid)
+    tot += 1
+    alarms += 1 if bad else 0
+    cell = lambda s: (s or "").replace("|", "\\|").replace("\n", " ")[:220]
+    print("| %s | %s | %s | %s |" % (os.path.basename(d), m.get("aimed_at", m.get("property", "")), cell(m.get("summary")), "; ".join(res) or "not run yet"))
+print("\n%d of %d refactorings raise no alarm on the checks run.\n" % (tot - alarms, tot))
+
 print("\n### 11.5 Axioms per property file (from `Print Assumptions` under every theorem, re-collected now)\n")
 print("`Print Assumptions` lists two kinds of entries: *primitive declarations* of Coq's native 63-bit integers and binary64 floats (`PrimInt63.int`, `PrimFloat.float`, `add`, `mul`, `ltb`, `of_uint63` … — types and operations implemented by the kernel/VM, not propositions) and *logical axioms* declared by the standard library. Only the latter are assumptions in the logical sense; both are listed.\n")
 print("| file | theorems closed under the global context | primitive declarations used | logical axioms (all from the Coq standard library / Flocq's use of Reals) |")
